@@ -1,0 +1,40 @@
+//go:build verif
+// +build verif
+
+package limited_rationality
+
+// Contracts for gocv (comment-only; compiled out unless the tag "verif" is set, and empty then).
+
+//@ ifacemethod HeuristicParams.GetCurrentChoice
+//@   ensures result == currentChoiceOf(self)
+//@ ifacemethod HeuristicParams.IsRandomAlternativesOrdering
+//@   ensures result == randomOrderOf(self)
+//@ spec currentChoiceOf(p HeuristicParams) string
+//@ spec randomOrderOf(p HeuristicParams) bool
+
+//@ func OrderAlternatives
+//@   property C01 C09 C11 C13
+//@   fnparam generator ensures 0.0 <= result && result < 1.0
+//@   ensures [fresh_rearrangement] fresh(result) && fresh(*result) && len(*result) == len(*alternatives)
+//@   ensures [members] forall k int :: 0 <= k && k < len(*result) ==> exists j int :: 0 <= j && j < len(*alternatives) && (*result)[k] == (*alternatives)[j]
+//@   ensures [fixed_order] !isRandomOrder ==> forall k int :: 0 <= k && k < len(*alternatives) ==> (*result)[k] == (*alternatives)[k]
+//@   ensures [input_untouched] unchanged(*alternatives)
+
+//@ func GetAlternativesSearchOrder
+//@   property C01 C09 C11 C13
+//@   fnparam generator ensures 0.0 <= result && result < 1.0
+//@   ensures [C09 considered_untouched] unchanged(dm.ConsideredAlternatives) && unchanged(dm.NotConsideredAlternatives)
+//@   ensures [current_choice_first] len(currentChoiceOf(params)) > 0 ==> result0.Id == currentChoiceOf(params)
+//@             && (exists j int :: 0 <= j && j < len(dm.ConsideredAlternatives) + len(dm.NotConsideredAlternatives) && result0 == model.altAt(dm.ConsideredAlternatives, dm.NotConsideredAlternatives, j))
+//@   ensures [rest_are_considered] forall k int :: 0 <= k && k < len(result1) ==> exists j int :: 0 <= j && j < len(dm.ConsideredAlternatives) && result1[k] == dm.ConsideredAlternatives[j]
+//@   ensures [rest_fresh] len(result1) == 0 || fresh(result1)
+
+//@ func PrepareSequentialRanking
+//@   property C01 C12 C13
+//@   requires [same_length] len(resultIds) == len(result)
+//@   ensures [one_entry_each] fresh(result0) && len(result0) == len(result) && forall i int :: 0 <= i && i < len(result) ==> result0[i].AlternativeResult == result[i]
+//@   ensures [links_next_only] forall i int :: 0 <= i && i < len(result) ==>
+//@             (i + 1 < len(result) ? (len(result0[i].BetterThanOrSameAs) == 1 && result0[i].BetterThanOrSameAs[0] == resultIds[i + 1]) : len(result0[i].BetterThanOrSameAs) == 0)
+//@   loop 1 invariant [ctx] fresh(ranking) && len(ranking) == len(result) && resultsCount == len(result)
+//@   loop 1 invariant [entries] forall i int :: 0 <= i && i < iter ==> ranking[i].AlternativeResult == result[i]
+//@             && (i + 1 < len(result) ? (len(ranking[i].BetterThanOrSameAs) == 1 && ranking[i].BetterThanOrSameAs[0] == resultIds[i + 1]) : len(ranking[i].BetterThanOrSameAs) == 0)
